@@ -66,6 +66,10 @@ Record st := {
   primary : key;                      (* committer.primaryKey, [] = unset: first key of the first flush that is sent *)
   tmrun : bool;                       (* ttlManager running: keep-alive of the primary lock *)
   perr : option key;                  (* the failed flush returned ErrKeyExist for this key (not yet reported) *)
+  pne : list key;                     (* keys of memDB carrying the presumeKeyNotExists flag (SetWithFlags) *)
+  fpne : list key;                    (* the same for flushingMemDB *)
+  cneset : list key;                  (* ghost: keys ever flushed as Op_CheckNotExists (no lock written) *)
+  flogp : list (list key);            (* ghost: the flag set handed to every call of the flush function (parallel to flog) *)
   (* ghost *)
   flog : list (N * buf * bool);       (* every call of the flush function: generation, buffer, sent (not closed at start) *)
   segs : list (list (key * value));   (* write ops of completed segments (between triggered flushes) *)
@@ -76,7 +80,7 @@ Record st := {
 
 Definition init : st :=
   {| mem := []; stages := []; flushing := None; inflight := false; pending := None; store := [];
-     cache := None; gen := 0; flen := 0; fsize := 0; closed := false; pstart := []; pend := []; primary := []; tmrun := false; perr := None;
+     cache := None; gen := 0; flen := 0; fsize := 0; closed := false; pstart := []; pend := []; primary := []; tmrun := false; perr := None; pne := []; fpne := []; cneset := []; flogp := [];
      flog := []; segs := []; seg := []; segstages := []; running := 0; maxrun := 0 |}.
 
 Inductive op :=
@@ -94,7 +98,9 @@ Inductive op :=
 | OCompleteExist (k : key)     (* the running flush function returns ErrKeyExist{k} (store rejected an Insert / CheckNotExists) *)
 | OTmStart                     (* the Flush batch holding the primary succeeded while the flush still runs: keep-alive starts *)
 | OEnd                         (* Commit or Rollback is over: committer.close() stops the keep-alive *)
-| OTm.                         (* query: ttlManager running? *)
+| OTm                          (* query: ttlManager running? *)
+| OInsert (k : key) (v : value) (* SetWithFlags(k, v, SetPresumeKeyNotExists) *)
+| OFlushOps.                   (* query: (key, op) list of the most recent call of the flush function *)
 
 Inductive resp :=
 | RUnit
@@ -103,6 +109,7 @@ Inductive resp :=
 | RBatch (m : buf) (calls : list (list key))
 | RFlush (triggered : bool) (status : N) (started : option (N * buf))   (* status 0 ok, 1 flush error, 2 staging error *)
 | RWait (ok : bool)
+| ROps (l : list (key * N))
 | RErrExist (k : key) (v : option value)   (* the reported error is ErrKeyExist{k} with Value v (handleAlreadyExistErr) *)
 | RNum (n : N).
 
@@ -155,26 +162,36 @@ Definition need_flush (P : params) (s : st) (memsz : N) : bool :=
 Definition upd_field_mem (s : st) (m : buf) (sg : list (key * value)) : st :=
   {| mem := m; stages := stages s; flushing := flushing s; inflight := inflight s; pending := pending s;
      store := store s; cache := cache s; gen := gen s; flen := flen s; fsize := fsize s; closed := closed s;
-     pstart := pstart s; pend := pend s; primary := primary s; tmrun := tmrun s; perr := perr s; flog := flog s; segs := segs s; seg := sg;
+     pstart := pstart s; pend := pend s; primary := primary s; tmrun := tmrun s; perr := perr s; pne := pne s; fpne := fpne s; cneset := cneset s; flogp := flogp s; flog := flog s; segs := segs s; seg := sg;
      segstages := segstages s; running := running s; maxrun := maxrun s |}.
 
 Definition set_cache (s : st) (c : option cache_t) : st :=
   {| mem := mem s; stages := stages s; flushing := flushing s; inflight := inflight s; pending := pending s;
      store := store s; cache := c; gen := gen s; flen := flen s; fsize := fsize s; closed := closed s;
-     pstart := pstart s; pend := pend s; primary := primary s; tmrun := tmrun s; perr := perr s; flog := flog s; segs := segs s; seg := seg s;
+     pstart := pstart s; pend := pend s; primary := primary s; tmrun := tmrun s; perr := perr s; pne := pne s; fpne := fpne s; cneset := cneset s; flogp := flogp s; flog := flog s; segs := segs s; seg := seg s;
      segstages := segstages s; running := running s; maxrun := maxrun s |}.
 
 Definition set_stages (s : st) (m : buf) (sts : list buf) (sg : list (key * value)) (sgs : list (list (key * value))) : st :=
   {| mem := m; stages := sts; flushing := flushing s; inflight := inflight s; pending := pending s;
      store := store s; cache := cache s; gen := gen s; flen := flen s; fsize := fsize s; closed := closed s;
-     pstart := pstart s; pend := pend s; primary := primary s; tmrun := tmrun s; perr := perr s; flog := flog s; segs := segs s; seg := sg;
+     pstart := pstart s; pend := pend s; primary := primary s; tmrun := tmrun s; perr := perr s; pne := pne s; fpne := fpne s; cneset := cneset s; flogp := flogp s; flog := flog s; segs := segs s; seg := sg;
      segstages := sgs; running := running s; maxrun := maxrun s |}.
 
 Definition set_store (s : st) (b : buf) : st :=
   {| mem := mem s; stages := stages s; flushing := flushing s; inflight := inflight s; pending := pending s;
      store := b; cache := cache s; gen := gen s; flen := flen s; fsize := fsize s; closed := closed s;
-     pstart := pstart s; pend := pend s; primary := primary s; tmrun := tmrun s; perr := perr s; flog := flog s; segs := segs s; seg := seg s;
+     pstart := pstart s; pend := pend s; primary := primary s; tmrun := tmrun s; perr := perr s; pne := pne s; fpne := fpne s; cneset := cneset s; flogp := flogp s; flog := flog s; segs := segs s; seg := seg s;
      segstages := segstages s; running := running s; maxrun := maxrun s |}.
+
+(* the op the flush callback gives a buffered mutation (txn.go): presumeKeyNotExists turns Put into Insert and a
+   delete into CheckNotExists, which asserts absence at the store and writes NO lock (flags Locked / NewlyInserted /
+   LockedInShareMode are not modelled) *)
+Definition key_in (k : key) (l : list key) : bool := existsb (bytes_eqb k) l.
+Definition mut_op (flagged : bool) (v : value) : N :=     (* 0 Put, 1 Del, 2 Insert, 3 CheckNotExists *)
+  if is_nil v then (if flagged then 3 else 1) else (if flagged then 2 else 0).
+Definition is_cne (fp : list key) (kv : key * value) : bool := is_nil (snd kv) && key_in (fst kv) fp.
+Definition lockable (fb : buf) (fp : list key) : buf := filter (fun kv => negb (is_cne fp kv)) fb.
+Definition muts_of (fb : buf) (fp : list key) : list (key * N) := map (fun kv => (fst kv, mut_op (key_in (fst kv) fp) (snd kv))) fb.
 
 (* while the flush function runs its mutations reach the store one by one, in any order (Flush RPCs of several regions,
    retries): the i-th mutation of the buffer in flight becomes visible in the store's buffer tier *)
@@ -182,7 +199,7 @@ Definition store_step (s : st) (i : N) : st :=
   if inflight s then
     match flushing s with
     | Some (_, fb) => match nth_error fb (N.to_nat i) with
-                      | Some (k, v) => set_store s (insert k v (store s))
+                      | Some (k, v) => if is_cne (fpne s) (k, v) then s else set_store s (insert k v (store s))
                       | None => s
                       end
     | None => s
@@ -195,9 +212,9 @@ Definition complete (s : st) (o : bool) : st :=
   if inflight s then
     let eff := o && negb (closed s) in
     {| mem := mem s; stages := stages s; flushing := flushing s; inflight := false; pending := Some eff;
-       store := (if eff then match flushing s with Some (_, fb) => overlay fb (store s) | None => store s end else store s);
+       store := (if eff then match flushing s with Some (_, fb) => overlay (lockable fb (fpne s)) (store s) | None => store s end else store s);
        cache := cache s; gen := gen s; flen := flen s; fsize := fsize s; closed := closed s || negb eff;
-       pstart := pstart s; pend := pend s; primary := primary s; tmrun := eff && (tmrun s || match flushing s with Some (_, fb) => negb (is_nil fb) | None => false end);   (* an error runs committer.close(): the keep-alive stops *) perr := perr s; flog := flog s; segs := segs s; seg := seg s;
+       pstart := pstart s; pend := pend s; primary := primary s; tmrun := eff && (tmrun s || match flushing s with Some (_, fb) => negb (is_nil (primary s)) && key_in (primary s) (map fst fb) | None => false end);   (* batch.isPrimary -> c.run; an error runs committer.close(): the keep-alive stops *) perr := perr s; pne := pne s; fpne := fpne s; cneset := cneset s; flogp := flogp s; flog := flog s; segs := segs s; seg := seg s;
        segstages := segstages s; running := N.pred (running s); maxrun := maxrun s |}
   else s.
 
@@ -226,15 +243,18 @@ Definition start_flush (s : st) : st :=
      closed := closed s;
      pstart := (if sent then upd_start (pstart s) fb else pstart s);
      pend := (if sent then upd_end (pend s) fb else pend s);
-     primary := (if sent && is_nil (primary s) then first_key fb else primary s);
+     primary := (if sent && is_nil (primary s) then first_key (lockable fb (pne s)) else primary s);   (* first op <> CheckNotExists *)
      tmrun := tmrun s; perr := None;
+     pne := []; fpne := pne s;                                   (* the fresh memDB has no flags *)
+     cneset := cneset s ++ map fst (filter (is_cne (pne s)) fb);
+     flogp := flogp s ++ [pne s];
      flog := flog s ++ [(g, fb, sent)]; segs := segs s ++ [seg s]; seg := [];
      segstages := segstages s; running := running s + 1; maxrun := N.max (maxrun s) (running s + 1) |}.
 
 Definition clear_flushing (s : st) : st :=
   {| mem := mem s; stages := stages s; flushing := None; inflight := inflight s; pending := None;
      store := store s; cache := cache s; gen := gen s; flen := flen s; fsize := fsize s; closed := closed s;
-     pstart := pstart s; pend := pend s; primary := primary s; tmrun := tmrun s; perr := None; flog := flog s; segs := segs s; seg := seg s;
+     pstart := pstart s; pend := pend s; primary := primary s; tmrun := tmrun s; perr := None; pne := pne s; fpne := fpne s; cneset := cneset s; flogp := flogp s; flog := flog s; segs := segs s; seg := seg s;
      segstages := segstages s; running := running s; maxrun := maxrun s |}.
 
 (* handleAlreadyExistErr: an ErrKeyExist coming out of the flush function is reported with the value that the failed
@@ -248,7 +268,14 @@ Definition err_resp (s : st) (dflt : resp) : resp :=
 Definition set_tm (s : st) (b : bool) (pe : option key) : st :=
   {| mem := mem s; stages := stages s; flushing := flushing s; inflight := inflight s; pending := pending s;
      store := store s; cache := cache s; gen := gen s; flen := flen s; fsize := fsize s; closed := closed s;
-     pstart := pstart s; pend := pend s; primary := primary s; tmrun := b; perr := pe; flog := flog s; segs := segs s;
+     pstart := pstart s; pend := pend s; primary := primary s; tmrun := b; perr := pe; pne := pne s; fpne := fpne s; cneset := cneset s; flogp := flogp s; flog := flog s; segs := segs s;
+     seg := seg s; segstages := segstages s; running := running s; maxrun := maxrun s |}.
+
+Definition set_pne (s : st) (p : list key) : st :=
+  {| mem := mem s; stages := stages s; flushing := flushing s; inflight := inflight s; pending := pending s;
+     store := store s; cache := cache s; gen := gen s; flen := flen s; fsize := fsize s; closed := closed s;
+     pstart := pstart s; pend := pend s; primary := primary s; tmrun := tmrun s; perr := perr s; pne := p; fpne := fpne s;
+     cneset := cneset s; flogp := flogp s; flog := flog s; segs := segs s;
      seg := seg s; segstages := segstages s; running := running s; maxrun := maxrun s |}.
 
 Definition complete_exist (s : st) (k : key) : st :=
@@ -256,7 +283,7 @@ Definition complete_exist (s : st) (k : key) : st :=
 
 (* the batch holding the primary was acknowledged (batch.isPrimary -> c.run): only for a flush that is really sent *)
 Definition tm_start (s : st) : st :=
-  if inflight s && negb (closed s) && match flushing s with Some (_, fb) => negb (is_nil fb) | None => false end
+  if inflight s && negb (closed s) && match flushing s with Some (_, fb) => negb (is_nil (primary s)) && key_in (primary s) (map fst fb) | None => false end
   then set_tm s true (perr s) else s.
 
 Definition flush (P : params) (s : st) (force : bool) (memsz : N) (wo : bool) : st * resp :=
@@ -277,6 +304,8 @@ Definition flush_wait (s : st) (wo : bool) : st * resp :=
   | Some _ => let '(s1, r) := wait s wo in (clear_flushing s1, if r then RWait true else err_resp s1 (RWait false))
   | None => (s, RWait true)
   end.
+
+Definition last_flog (s : st) : N * buf * bool := last (flog s) (0, [], false).
 
 Definition step (P : params) (s : st) (o : op) : st * resp :=
   match o with
@@ -308,6 +337,10 @@ Definition step (P : params) (s : st) (o : op) : st * resp :=
   | OTmStart => (tm_start s, RUnit)
   | OEnd => (set_tm s false (perr s), RUnit)
   | OTm => (s, RNum (if tmrun s then 1 else 0))
+  | OInsert k v =>
+      if is_nil v then (s, RSet false)
+      else (set_pne (upd_field_mem s (insert k v (mem s)) (seg s ++ [(k, v)])) (if key_in k (pne s) then pne s else k :: pne s), RSet true)
+  | OFlushOps => (s, ROps (muts_of (snd (fst (last_flog s))) (last (flogp s) [])))
   end.
 
 Definition run_from (P : params) (s : st) (ops : list op) : st :=
@@ -327,7 +360,7 @@ Definition commit_attempt (P : params) (s : st) (wo1 wo2 : bool) : st * bool :=
 Record rst := { rmap : buf; rstages : list buf }.
 Definition rstep (r : rst) (o : op) : rst :=
   match o with
-  | OSet k v => if is_nil v then r else {| rmap := insert k v (rmap r); rstages := rstages r |}
+  | OSet k v | OInsert k v => if is_nil v then r else {| rmap := insert k v (rmap r); rstages := rstages r |}
   | ODel k => {| rmap := insert k [] (rmap r); rstages := rstages r |}
   | OStaging => {| rmap := rmap r; rstages := rmap r :: rstages r |}
   | ORelease => match rstages r with _ :: t => {| rmap := rmap r; rstages := t |} | [] => r end
@@ -336,11 +369,21 @@ Definition rstep (r : rst) (o : op) : rst :=
   end.
 Definition rrun (ops : list op) : rst := fold_left rstep ops {| rmap := []; rstages := [] |}.
 
+(* presumeKeyNotExists is only put on keys the transaction has not written before (the caller's side of the flag's contract) *)
+Fixpoint presume_ok_from (r : rst) (ops : list op) : bool :=
+  match ops with
+  | [] => true
+  | o :: t =>
+      (match o with OInsert k _ => match lookup k (rmap r) with None => true | Some _ => false end | _ => true end)
+      && presume_ok_from (rstep r o) t
+  end.
+Definition presume_ok (ops : list op) : bool := presume_ok_from {| rmap := []; rstages := [] |} ops.
+
 (* the write log of the transaction: every Set/Delete in order, net of staging cleanups *)
 Record wst := { wl : list (key * value); wstk : list (list (key * value)) }.
 Definition wstep (w : wst) (o : op) : wst :=
   match o with
-  | OSet k v => if is_nil v then w else {| wl := wl w ++ [(k, v)]; wstk := wstk w |}
+  | OSet k v | OInsert k v => if is_nil v then w else {| wl := wl w ++ [(k, v)]; wstk := wstk w |}
   | ODel k => {| wl := wl w ++ [(k, [])]; wstk := wstk w |}
   | OStaging => {| wl := wl w; wstk := wl w :: wstk w |}
   | ORelease => match wstk w with _ :: t => {| wl := wl w; wstk := t |} | [] => w end
@@ -450,9 +493,14 @@ Definition flushed_keys (s : st) : list key :=
 
 (* keys are non-empty (the flush callback uses len(bound) == 0 as "unset") *)
 Definition op_keys_ok (o : op) : bool :=
-  match o with OSet k _ => negb (is_nil k) | ODel k => negb (is_nil k) | _ => true end.
+  match o with OSet k _ => negb (is_nil k) | ODel k => negb (is_nil k) | OInsert k _ => negb (is_nil k) | _ => true end.
 
-Definition last_flog (s : st) : N * buf * bool := last (flog s) (0, [], false).
+
+(* keys that got a lock: mutations of sent flushes other than CheckNotExists *)
+Definition locked_keys (s : st) : list key :=
+  flat_map (fun ep : (N * buf * bool) * list key =>
+              if snd (fst ep) then map fst (lockable (snd (fst (fst ep))) (snd ep)) else [])
+           (combine (flog s) (flogp s)).
 
 Fixpoint mem_nat (n : nat) (l : list nat) : bool :=
   match l with [] => false | x :: r => Nat.eqb n x || mem_nat n r end.
@@ -468,7 +516,6 @@ Inductive pstat := PUndecided | PCommitted | PRolledBack.
 Record cst := { clocks : list key; cstat : pstat; ccommitted : list key; crolled : list key }.
 Definition crash_state (locks : list key) : cst :=
   {| clocks := locks; cstat := PUndecided; ccommitted := []; crolled := [] |}.
-Definition key_in (k : key) (l : list key) : bool := existsb (bytes_eqb k) l.
 Definition cresolve (c : cst) (k : key) : cst :=
   if key_in k (clocks c) then
     let stat := match cstat c with PUndecided => PRolledBack | x => x end in
